@@ -362,6 +362,19 @@ def b_goodman(ctx):
             got_l = np.asarray(lc.amplitude, dtype=float)
             if list(lc.amplitude.index) != labels or not np.allclose(got_l, one, rtol=1e-12, atol=0, equal_nan=True):
                 ctx.fail('C12:several-cycles:collective-order', f'collective accessor on cycles labelled {labels} -> R={Rg}: labels {list(lc.amplitude.index)}, amplitudes {got_l.tolist()}, one cycle at a time {one.tolist()}', {'R_goal': Rg})
+    # a pulsating compressive cycle whose upper load is the float -0.0 (what 0.0 * -1 or a sign flip of a collective produces) is the cycle with upper load 0.0:
+    # same R (-inf), same transformed amplitude.  Exposed a defect of the unchanged tree (R = lower / -0.0 = +inf, transformed amplitude 0), repaired in /repo,
+    # see known_findings.json
+    if ctx.shard == 0:
+        for Rg in (-1.0, 0.0, -math.inf):
+            pz = pd.DataFrame({'from': [-2.0, -5.0], 'to': [0.0, 0.0]})
+            nz = pd.DataFrame({'from': [-2.0, -5.0], 'to': [-0.0, -0.0]})
+            ctx.case(True, key=('negative-zero-upper-load', Rg))
+            ap = np.asarray(pz.meanstress_transform.fkm_goodman(pd.Series({'M': 0.3, 'M2': 0.1}), Rg).amplitude, dtype=float)
+            an = np.asarray(nz.meanstress_transform.fkm_goodman(pd.Series({'M': 0.3, 'M2': 0.1}), Rg).amplitude, dtype=float)
+            one = np.array([float(MST.fkm_goodman(np.array([a_]), np.array([-a_]), 0.3, 0.1, Rg)[0]) for a_ in (1.0, 2.5)])
+            if not np.allclose(an, ap, rtol=1e-12, atol=0, equal_nan=True) or not np.allclose(ap, one, rtol=1e-12, atol=0, equal_nan=True):
+                ctx.fail('C12:negative-zero-upper-load', f'cycles (-2, 0), (-5, 0) -> R={Rg}: upper load 0.0 gives {ap.tolist()}, upper load -0.0 gives {an.tolist()}, plain function {one.tolist()}', {'R_goal': Rg})
     ctx.sample({'cycle': {'a': 2.0, 'm': 1.0}, 'M': 0.3, 'M2': 0.1, 'R_goal': -1.0, 'oracle': _oracle(2.0, 1.0, goodman_segments(0.3, 0.1), -1.0)})
 
 
@@ -398,15 +411,19 @@ def b_matrix(ctx):
                     continue
                 # the classes of a matrix are identified by their limits: the same matrix with its rows listed downwards gives the same transformed histogram
                 # (added after seed C12-h sorted the operands inside HaighDiagram.transform and the re-binning paired sorted ranges with unsorted counts)
-                res_d = mat.sort_index(ascending=False).meanstress_transform.fkm_goodman(pd.Series({'M': M, 'M2': M / 3}), Rg)
-                hu, hd = res.to_pandas(), res_d.to_pandas()
-                try:
-                    same = bool(np.allclose(np.asarray(hd.reindex(hu.index), dtype=float), np.asarray(hu, dtype=float), rtol=1e-12, atol=1e-12)) and len(hu) == len(hd)
-                except Exception:   # noqa
-                    same = False
-                if not same:
-                    ctx.fail('C12:matrix-row-order', f'matrix {list(idx.names)} (R_goal {Rg}, M {M}) listed downwards transforms to {np.asarray(hd, dtype=float).tolist()}, listed upwards to {np.asarray(hu, dtype=float).tolist()}',
-                             {'edges': edges.tolist(), 'counts': counts.tolist(), 'layout': list(idx.names), 'R_goal': Rg, 'M': M})
+                # (listed downwards; with the second level as the major one; shuffled; with the two levels exchanged.  The last three exposed a defect of the unchanged
+                # tree - transformed ranges paired by position with cycle counts listed in another order - repaired in /repo, see known_findings.json)
+                hu = res.to_pandas()
+                for oname, mat_v in (('listed downwards', mat.sort_index(ascending=False)), ('second level major', mat.swaplevel().sort_index().swaplevel()),
+                                     ('shuffled', mat.sample(frac=1, random_state=it)), ('levels exchanged', mat.swaplevel())):
+                    try:
+                        hd = mat_v.meanstress_transform.fkm_goodman(pd.Series({'M': M, 'M2': M / 3}), Rg).to_pandas()
+                        same = len(hu) == len(hd) and bool(np.allclose(np.asarray(hd, dtype=float), np.asarray(hu, dtype=float), rtol=1e-12, atol=1e-12))
+                    except Exception as e:   # noqa
+                        hd, same = f'{type(e).__name__}: {str(e)[:100]}', False
+                    if not same:
+                        ctx.fail(f'C12:matrix-row-order:{oname}', f'matrix {list(idx.names)} (R_goal {Rg}, M {M}) {oname} transforms to {np.asarray(hd, dtype=float).tolist() if not isinstance(hd, str) else hd}, listed upwards to {np.asarray(hu, dtype=float).tolist()}',
+                                 {'edges': edges.tolist(), 'counts': counts.tolist(), 'layout': list(idx.names), 'R_goal': Rg, 'M': M, 'order': oname})
     ctx.sample({'layout': ['from', 'to'], 'cells': 9})
 
 
